@@ -352,16 +352,16 @@ theorem delivery_can_complete {v : Variant} {s : State} (hr : Reach v s) {i : Na
     (hi : s.subs[i]? = some u) (hl : inLoop u = true) :
     ∃ s' u', Path v (fun l => l = .fwdTake i ∨ l = .fwdDeliver i) s s' ∧ s'.subs[i]? = some u' ∧
       u'.buf = [] ∧ u'.hand = none ∧ u'.delivered = u.delivered ++ u.hand.toList ++ u.buf ∧
-      s'.log = s.log ∧ s'.bc = s.bc := by
+      s'.log = s.log ∧ s'.bc = s.bc ∧ u'.joinedAt = u.joinedAt := by
   let Good : State → Prop := fun x => Reach v x ∧ x.log = s.log ∧ x.bc = s.bc ∧
-    ∃ w, x.subs[i]? = some w ∧ inLoop w = true ∧ w.seq = u.seq
+    ∃ w, x.subs[i]? = some w ∧ inLoop w = true ∧ w.seq = u.seq ∧ w.joinedAt = u.joinedAt
   let Target : State → Prop := fun x => ∀ w, x.subs[i]? = some w → w.buf = [] ∧ w.hand = none
   let μ : State → Nat := fun x => match x.subs[i]? with
     | some w => 2 * w.buf.length + (if w.pc = .holding then 1 else 0)
     | none => 0
   have key := path_of_measure (v := v) (ok := fun l => l = .fwdTake i ∨ l = .fwdDeliver i)
     Good Target μ (by
-      intro x ⟨hrx, hlog, hbc, w, hw, hlw, hseq⟩ hnt
+      intro x ⟨hrx, hlog, hbc, w, hw, hlw, hseq, hj⟩ hnt
       have hwf := (wf_reach x hrx).subs i w hw
       have hlt := lt_of_getElem? hw
       have hpc : w.pc = .idle ∨ w.pc = .holding := by simpa [inLoop] using hlw
@@ -375,7 +375,7 @@ theorem delivery_can_complete {v : Variant} {s : State} (hr : Reach v s) {i : Na
           refine ⟨.fwdTake i, setSub x i { w with hand := some y, buf := rest, pc := .holding },
             Or.inl rfl, by simp [step, fwdTake, hw, hpc, hb],
             ⟨?_, hlog, hbc, { w with hand := some y, buf := rest, pc := .holding }, ?_,
-              by simp [inLoop], ?_⟩, ?_⟩
+              by simp [inLoop], ?_, hj⟩, ?_⟩
           · exact Reach.step (.fwdTake i) hrx (by simp [step, fwdTake, hw, hpc, hb])
           · simp [setSub, hlt]
           · rw [← hseq]; simp [Sub.seq, hh, hb]
@@ -391,7 +391,7 @@ theorem delivery_can_complete {v : Variant} {s : State} (hr : Reach v s) {i : Na
             setSub x i { w with delivered := w.delivered ++ [y], hand := none, pc := .idle },
             Or.inr rfl, by simp [step, fwdDeliver, hw, hpc, hx],
             ⟨?_, hlog, hbc, { w with delivered := w.delivered ++ [y], hand := none, pc := .idle }, ?_,
-              by simp [inLoop], ?_⟩, ?_⟩
+              by simp [inLoop], ?_, hj⟩, ?_⟩
           · exact Reach.step (.fwdDeliver i) hrx (by simp [step, fwdDeliver, hw, hpc, hx])
           · simp [setSub, hlt]
           · rw [← hseq]; simp [Sub.seq, hx]
@@ -400,14 +400,54 @@ theorem delivery_can_complete {v : Variant} {s : State} (hr : Reach v s) {i : Na
               simp [setSub, hlt]
             simp only [μ, e1, hw]
             simp [hpc])
-  obtain ⟨s', hp, ⟨_, hlog, hbc, w, hw, _, hseq⟩, ht⟩ := key s ⟨hr, rfl, rfl, u, hi, hl, rfl⟩
+  obtain ⟨s', hp, ⟨_, hlog, hbc, w, hw, _, hseq, hj⟩, ht⟩ := key s ⟨hr, rfl, rfl, u, hi, hl, rfl, rfl⟩
   obtain ⟨hb, hh⟩ := ht w hw
-  refine ⟨s', w, hp, hw, hb, hh, ?_, hlog, hbc⟩
+  refine ⟨s', w, hp, hw, hb, hh, ?_, hlog, hbc, hj⟩
   have : w.seq = w.delivered := by simp [Sub.seq, hb, hh]
   rw [← this, hseq]; rfl
 
 example : ∃ (i : Nat) (u : Sub), sampleState.subs[i]? = some u ∧ inLoop u = true ∧ u.buf.length = 1 :=
   ⟨0, _, rfl, by decide, by decide⟩
+
+/-- `logged_values_can_be_received` ("received exactly once", as a possibility statement): take a
+subscriber that is subscribed and stays so (`Live`: forwarder in its loop, context not cancelled,
+not skipped, `Close` not called) and whose reader reads, in any reachable state — with a fan-out in
+progress, Broadcasts blocked, other readers stalled — provided every *stalled* subscriber has left.
+Then permitted steps (internal ones and deliveries to readers that read) lead to a state with the
+same log in which this subscriber has received exactly the log from the moment it joined: every
+value once, in log order. -/
+theorem logged_values_can_be_received (stalled : Nat → Bool) {s : State} {i : Nat}
+    (hr : Reach .fixed s) (hlive : Live i s) (hns : stalled i = false)
+    (hleft : stalledLeft stalled s) :
+    ∃ s' u', Path .fixed (allowed stalled) s s' ∧ s'.subs[i]? = some u' ∧ s'.log = s.log ∧
+      u'.delivered = s.log.drop u'.joinedAt := by
+  obtain ⟨s1, p1, hr1, _, hf, hbc1, _⟩ := drain_lock stalled hr (Or.inr hleft)
+  have hl1 : Live i s1 :=
+    Path.preserve (Live i) (fun _ _ _ hr' hq hl hs => live_step stalled hr' hq hl hs) p1 hr hlive
+  obtain ⟨_, _, _, u1, hu1, hlp1, _, hm1⟩ := hl1
+  obtain ⟨s2, u2, p2, hu2, _, _, hd2, hlog2, _, hj2⟩ := delivery_can_complete hr1 hu1 hlp1
+  have hsuf := suffix_inv hr1 hu1 hm1
+  have hpend : pend s1 i = [] := by simp [pend, hbc1]
+  rw [hpend, List.append_nil] at hsuf
+  refine ⟨s2, u2, p1.trans (p2.mono ?_), hu2, by rw [hlog2, hf.log], ?_⟩
+  · intro l hl
+    rcases hl with rfl | rfl
+    · exact Or.inl rfl
+    · exact Or.inr ⟨i, rfl, hns⟩
+  · rw [hd2, hsuf, hj2, hf.log]
+
+/-- Non-vacuity: `sampleState` — a fan-out in progress, the other subscriber cancelled and gone —
+satisfies the hypotheses for subscriber 0 with every other reader stalled. -/
+example : Live 0 sampleState ∧ stalledLeft (fun j => j != 0) sampleState := by
+  refine ⟨⟨by decide, by decide, by decide, _, rfl, by decide, by decide, by decide⟩, ?_⟩
+  have h1 : ∃ a b, sampleState.subs = [a, b] ∧ b.cancelled = true := ⟨_, _, rfl, by decide⟩
+  obtain ⟨a, b, h1, h2⟩ := h1
+  intro j w hj hst _
+  rw [h1] at hj
+  match j, hj with
+  | 0, _ => simp at hst
+  | 1, hj => simp at hj; rw [← hj]; exact h2
+  | j + 2, hj => simp at hj
 
 /-! ### No deadlock: internal progress (model of the repaired code)
 
